@@ -420,6 +420,36 @@ class PipeWorld:
             loop.close()
         return obs
 
+    def run_long(self, hist: list) -> dict:
+        """like run(), for histories of thousands of records: returns the final stream, queue and what was written"""
+        import asyncio
+
+        self._real = processes_mod.os.write
+        self.stream = b''
+        self.p._write_queue.pop('svc', None)
+        written = b''
+        loop = asyncio.new_event_loop()
+        try:
+            processes_mod.os.write = self.os_write
+            nrec = 0
+            for op in hist:
+                if op['op'] == 'write':
+                    nrec += 1
+                    text = ('%07d' % nrec)[: op['len'] - 1].ljust(op['len'] - 1, 'x')
+                    self.p.write('svc', text)
+                    written += text.encode() + b'\n'
+                else:
+                    self.script = ['full'] * op['full'] + ([] if op['last'] == NONE else [op['last']])
+                    try:
+                        loop.run_until_complete(self.p.flush_write_queue())
+                    except AssertionError as exc:
+                        return {'error': str(exc)}
+                    self.script = []
+        finally:
+            processes_mod.os.write = self._real
+            loop.close()
+        return {'out': self.stream, 'queue': [bytes(x) for x in self.p._write_queue.get('svc', [])], 'written': written}
+
     def close(self) -> None:
         self.w.close()
 
@@ -451,5 +481,24 @@ def run_pipe(ck: Check, tier: str) -> None:
             clause = 'C13-pipe-stream-is-not-the-records-in-order'
             ck.violation({'clause': clause, 'kind': 'pipe'}, f'{clause}: helper read {last["out"]!r} queue {last["queue"]!r}; model {want_out!r} {want_queue!r}; history {hist}',
                          {'hist': hist, 'out': st['out'], 'queue': st['queue']})
+    # Long stalls: the bounded model cannot hold thousands of queued records, but its invariant does not depend on the
+    # bound -- ExaPipe!Fifo: what the helper has read followed by what is still queued is the records in the order
+    # written.  A helper which stops reading after a partial write while thousands of events are queued, then drains.
+    for queued in ((4200, 9000) if tier == 'quick' else (300, 4097, 4200, 9000, 20000)):
+        hist = [{'op': 'write', 'len': 40}, {'op': 'write', 'len': 40}, {'op': 'flush', 'full': 1, 'last': 17}]
+        hist += [{'op': 'write', 'len': 6}] * queued
+        hist += [{'op': 'flush', 'full': 0, 'last': EAGAIN}]
+        hist += [{'op': 'flush', 'full': 10, 'last': NONE}] * (queued // 10 + 2)
+        obs = pw.run_long(hist)
+        n += 1
+        ck.count({'pipe-long-stall': queued})
+        if 'error' in obs:
+            ck.violation({'clause': 'C13-pipe-flush-differs-from-the-model', 'kind': 'pipe-long'}, f'C13-pipe-flush-differs-from-the-model: {obs["error"]} (stall with {queued} records queued)', {'hist': 'long-stall', 'queued': queued})
+        elif obs['out'] + b''.join(obs['queue']) != obs['written']:
+            got = obs['out'] + b''.join(obs['queue'])
+            at = next((i for i in range(min(len(got), len(obs['written']))) if got[i] != obs['written'][i]), min(len(got), len(obs['written'])))
+            ck.violation({'clause': 'C13-pipe-stream-is-not-the-records-in-order', 'kind': 'pipe-long'},
+                         f'C13-pipe-stream-is-not-the-records-in-order: after a partial write and {queued} records queued during the stall, stream + queue differs from the records written at byte {at}: {got[max(0, at - 20):at + 30]!r} vs {obs["written"][max(0, at - 20):at + 30]!r}',
+                         {'hist': 'long-stall', 'queued': queued})
     pw.close()
     ck.cov['pipe_histories_replayed'] = n
